@@ -6,6 +6,8 @@ import os
 import sys
 import time
 import traceback
+
+from .sym.terms import Unsupported
 import warnings
 
 from . import report
@@ -40,6 +42,19 @@ def main():
         return 3
     try:
         res = mod.run(a.tier, seed)
+    except Unsupported as e:
+        # code outside the modelled subset was reached outside a traced path (e.g. a property that now runs code when the
+        # check inspects a result): undecided, never a violation and not a checker crash
+        traceback.print_exc()
+        res = report.Result(a.prop)
+        res.undecided_reasons.append(f"unsupported operation outside a traced path (no obligation could be generated): {e}")
+        if hasattr(mod, "run_bounded"):
+            try:
+                mod.run_bounded(res, a.tier, seed)         # the bounded stand-in still runs: a failing input is a violation
+            except Exception:  # noqa: BLE001
+                traceback.print_exc()
+                print(f"CHECKER-ERROR property={a.prop} internal exception in the bounded part")
+                return 3
     except Exception:  # noqa: BLE001
         traceback.print_exc()
         print(f"CHECKER-ERROR property={a.prop} internal exception")
